@@ -178,7 +178,7 @@ pub fn gen(seed: u64, idx: u64, tier: Tier) -> Scenario {
     sc
 }
 
-fn probe(h: &mut H, final_probe: bool, last: &str, sent_since: &mut usize) {
+fn probe(h: &mut H, final_probe: bool, last: &str, sent_since: &mut usize, sentinels: (bool, bool)) {
     if h.dead.is_some() { return; }
     let mx = alloc_seam::reset_max();
     let allowed = (64usize << 20) + 8 * *sent_since;
@@ -194,10 +194,11 @@ fn probe(h: &mut H, final_probe: bool, last: &str, sent_since: &mut usize) {
         return;
     }
     let _ = h.cmd(c, &[b"SELECT".to_vec(), b"15".to_vec()], &[]);
+    // (a minimised scenario may have lost the steps that store the sentinel data: only what was stored is checked)
     let g = h.cmd(c, &[b"GET".to_vec(), b"sentinel:str".to_vec()], &[]).reply;
-    if g != Some(R::Bulk(b"intact".to_vec())) { h.violate(format!("C06/data-damaged/{}", last), format!("GET sentinel:str -> {:?}", g.map(|r| r.short()))); }
+    if sentinels.0 && g != Some(R::Bulk(b"intact".to_vec())) { h.violate(format!("C06/data-damaged/{}", last), format!("GET sentinel:str -> {:?}", g.map(|r| r.short()))); }
     let l = h.cmd(c, &[b"LRANGE".to_vec(), b"sentinel:list".to_vec(), b"0".to_vec(), b"-1".to_vec()], &[]).reply;
-    if l != Some(R::Arr(vec![R::Bulk(b"x".to_vec()), R::Bulk(b"y".to_vec())])) { h.violate(format!("C06/data-damaged/{}", last), format!("LRANGE sentinel:list -> {:?}", l.map(|r| r.short()))); }
+    if sentinels.1 && l != Some(R::Arr(vec![R::Bulk(b"x".to_vec()), R::Bulk(b"y".to_vec())])) { h.violate(format!("C06/data-damaged/{}", last), format!("LRANGE sentinel:list -> {:?}", l.map(|r| r.short()))); }
     h.sim.close(c, CloseHow::Close);
     h.count("probes", 1);
     let _ = final_probe;
@@ -210,6 +211,7 @@ pub fn exec(sc: &Scenario) -> Outcome {
     alloc_seam::reset_max();
     let mut last = String::from("-");
     let mut sent_since = 0usize;
+    let mut sentinels = (false, false);
     for (i, st) in sc.steps.iter().enumerate() {
         h.step_no = i;
         if h.dead.is_some() { break; }
@@ -220,6 +222,7 @@ pub fn exec(sc: &Scenario) -> Outcome {
                 let ci = match h.cl(*c) { Some(x) if !h.sim.clients[x].eof && !h.sim.clients[x].closed => x, _ => h.connect(*c, h.inst, 0) };
                 if *c != 0 { last = verb_of(&args); alloc_seam::set_context(&last); sent_since += args.iter().map(|x| x.len() + 16).sum::<usize>(); }
                 let r = h.cmd(ci, &args, split);
+                if *c == 0 && args.len() > 2 && matches!(&r.reply, Some(x) if !x.is_err()) { if args[1] == b"sentinel:str" { sentinels.0 = true; } if args[1] == b"sentinel:list" { sentinels.1 = true; } }
                 h.count("cmds", 1);
                 h.note(format!("c{} {} -> {}", c, show_cmd(&args), r.reply.as_ref().map(|x| x.short()).unwrap_or_else(|| "NO REPLY".into())));
                 if r.reply.is_none() && h.dead.is_none() {
@@ -235,7 +238,7 @@ pub fn exec(sc: &Scenario) -> Outcome {
             Step::Turns { n } => { for _ in 0..*n { h.turn(); } }
             Step::Adv { ns } => h.sim.advance(*ns),
             Step::Close { c, half } => { if let Some(ci) = h.cl(*c) { h.sim.close(ci, if *half { CloseHow::HalfClose } else { CloseHow::Close }); } h.turn(); }
-            Step::Ctl { name, n, .. } if name == "probe" => probe(&mut h, *n == 1, &last, &mut sent_since),
+            Step::Ctl { name, n, .. } if name == "probe" => probe(&mut h, *n == 1, &last, &mut sent_since, sentinels),
             _ => {}
         }
     }
